@@ -10,7 +10,7 @@ FMT = ("EventManager instances: (trigger vector, bus.adr, bus.we, bus.dat_w, bus
        "stimulus = Timer: none, UART: sink.valid, sink.data, source.ready, GPIOIn: pads")
 
 N_STALE = "C15-multiword-pending-stale-words"     # not a finding: logged as a note (see probes)
-F_GPIO = "C15-gpio-change-back-to-back"           # reported to the coordinator; probed once it is listed
+F_GPIO = "C15-gpio-change-back-to-back"           # open finding (known_findings.json)
 
 
 # ---------------------------------------------------------------------------------------------------------
@@ -105,7 +105,7 @@ def jobs(tier):
     J = []
     A = lambda mk, **kw: J.append(Job("A", mk, max_states=kw.pop("max_states", 400000 if quick else 3000000), **kw))
     B = lambda mk, **kw: J.append(Job("B", mk, cycles=kw.pop("cycles", 3000 if quick else 30000),
-                                      runs=kw.pop("runs", 1 if quick else 4), **kw))
+                                      runs=kw.pop("runs", 1 if quick else 3), **kw))
     K = "prfl"
     # ---- mode A: one source, every kind, 8- and 32-bit CSR bus; every mask, reads of every register, a write to
     #      `status`, a write to the same index in another page
@@ -323,7 +323,6 @@ def gpio_change_witness():
 
 def probes(ctx):
     out = []
-    listed = {e.get("id") for e in ctx.known}
     # (1) multi-word pending, stale words: outside the accessor discipline (generated accessors always write every
     #     word); DESIGN §7.C15 lists it as the hypothesis of the `_partial` theorem, not as a finding -> note only.
     inst, trace = stale_word_witness()
@@ -331,16 +330,25 @@ def probes(ctx):
     ctx.cov.notes.append("%s: writing only the committing word of a multi-word pending register re-applies the stale "
                          "upper words of pending.r: %s" % (N_STALE, ("reproduces, cycle %d: %s" % r) if r else
                                                            "does not reproduce"))
-    # (2) GPIO change mode (client logic, not the EventManager): reported to the coordinator; a probe only once listed
+    # (2) GPIO change mode (client logic, not the EventManager): listed as an open finding
     lost, what = gpio_change_witness()
-    if F_GPIO in listed:
-        out.append((F_GPIO, lost, what))
-    else:
-        ctx.cov.notes.append("%s (not listed in known_findings.json, note only): %s: %s"
-                             % (F_GPIO, "reproduces" if lost else "does not reproduce", what))
+    out.append((F_GPIO, lost, what))
     return out
 
 
 def replay(ctx, payload):
     from explore import generic_replay
+    fi = payload.get("failing_input") or {}
+    name = fi.get("instance") or ""
+    if name.endswith("/corpus"):
+        for fname, case in corpus_cases():
+            inst, _ = corpus_instance(case)
+            if inst.name == name:
+                r = replay_with_monitor(inst, [tuple(l) for l in fi.get("trace", [])])
+                if r:
+                    print("cycle %d: %s" % r)
+                    print("VIOLATION property=%s replay=(replayed)" % ctx.prop)
+                    return 1
+                print("trace no longer violates the property on the current tree")
+                return 0
     return generic_replay(ctx, payload, jobs("thorough"))
